@@ -5,7 +5,7 @@ CONSTANTS
   MaxPos = 0
   NCols = 12
   Datasets = {"all", "wrap", "neg", "pos", "nonneg", "single", "empty", "ties", "ties0"}
-  Vias = {"set", "setd", "imp", "imp1d"}
+  Vias = {"set", "imp1d"}
   Classes = {"Q"}
   Depth = 2
   Sample = FALSE
